@@ -106,6 +106,7 @@ class RunBundler:
         self._sequence_counters: dict[Any, int] = dict()  # noqa: C408
         self._sequence_counters_copy: dict[Any, int] = dict()  # for if we redo data-points  # noqa: C408
         self._bundled_streams: set[Any] = set()  # streams filled by create/save bundles (re-taken on rewind)
+        self._sequence_high_water: dict[Any, int] = dict()  # noqa: C408  # counters reached before a rewind
         self._monitor_params: dict[Subscribable, tuple[Callback, dict]] = dict()  # noqa: C408  # cache of {obj: (cb, kwargs)}
         self._monitors_suspended = False  # True between suspend_monitors() and restore_monitors()
         # a cache of stream_resource uid to the data_keys that stream_resource collects for
@@ -187,6 +188,11 @@ class RunBundler:
             reason = ""
 
         exit_status: Literal["success", "abort", "fail"] = msg.kwargs.get("exit_status", "success") or "success"
+        # Events emitted before a rewind and not re-taken by the time the run ends
+        # exist as documents: num_events must count them.
+        for desc_key, reached in self._sequence_high_water.items():
+            if self._sequence_counters.get(desc_key, 1) < reached:
+                self._sequence_counters[desc_key] = reached
         doc = self._compose_stop(
             exit_status=exit_status,
             reason=reason,
@@ -498,6 +504,11 @@ class RunBundler:
         # seq_nums and makes RunStop under-count (and dropped the 'interruptions'
         # counter altogether when no checkpoint had been passed since 'open_run').
         for desc_key in self._bundled_streams:
+            # remember how far the stream got: if the run ends before the data points
+            # are re-taken, the events emitted so far still count
+            reached = self._sequence_counters.get(desc_key, 1)
+            if reached > self._sequence_high_water.get(desc_key, 1):
+                self._sequence_high_water[desc_key] = reached
             # a stream first filled after the checkpoint is rolled back to its beginning
             seq_num = self._sequence_counters_copy.get(desc_key, 1)
             self._sequence_counters[desc_key] = seq_num
